@@ -33,7 +33,7 @@ from fractions import Fraction as F
 from multiprocessing import Pool
 
 from harness.base import Results, corpus_lines
-from harness.lim_fake import Env
+from harness.lim_fake import Env, find_incoming_limiter
 
 TIE = F(1, 10**9)
 
@@ -183,7 +183,14 @@ def run_acct_case(env, cfg, client, ops, start=0.0):
                 s.bump_cost(n * s.bw_cost_per_byte)
                 s.send_count += 1
             elif k == 'e':
-                s._bump_errors(_Exc(op[1]) if op[1] is not None else None)
+                charge_error = getattr(s, '_bump_errors', None)
+                if charge_error is not None:
+                    charge_error(_Exc(op[1]) if op[1] is not None else None)
+                else:
+                    # the private helper was renamed: the charge itself goes through the public
+                    # bump_cost (the live-session scenarios exercise the real error path)
+                    s.errors += 1
+                    s.bump_cost(s.error_base_cost + (op[1] or 0.0))
             elif k == 'a':
                 env.vtime.manual += op[1]
             elif k == 'x':
@@ -191,7 +198,7 @@ def run_acct_case(env, cfg, client, ops, start=0.0):
         except Exception as e:      # noqa: the accounting must not raise for any configuration
             orc.fail('c14:accounting-raised', f'{op} raised {type(e).__name__}: {e}')
             break
-        limit = s._incoming_concurrency.max_concurrent
+        limit = find_incoming_limiter(s).max_concurrent
         orc.after(op, before, s.cost, limit)
         obs.append((s.cost, limit))
     return obs, orc
@@ -397,10 +404,15 @@ def evaluate_acct(ctx, res, cases, scope, threshold):
 
 
 # ------------------------------------------------------------------ level 2: session
-def make_rpc_class(env, cfg):
-    RPCSession = env.session.RPCSession
+def make_session_class(env, cfg, kind='rpc'):
+    """kind 'rpc': RPCSession fed JSON lines; 'msg': MessageSession fed Bitcoin frames (command =
+    what the handler does, payload = `<id>[:<own cost>]`).  Only public hooks are overridden."""
+    base = env.session.RPCSession if kind == 'rpc' else env.session.MessageSession
+    # the error a handler fails with: an RPCError on an RPC session; a message session knows
+    # nothing of JSON-RPC, there a handler signals a costly failure with a ProtocolError
+    RPCError = env.jsonrpc.RPCError if kind == 'rpc' else env.jsonrpc.ProtocolError
 
-    class Srv(RPCSession):
+    class Srv(base):
         bw_cost_per_byte = cfg['bw']
         cost_soft_limit = cfg['soft']
         cost_hard_limit = cfg['hard']
@@ -408,8 +420,11 @@ def make_rpc_class(env, cfg):
         cost_sleep = cfg['sleep']
         error_base_cost = cfg['base']
         initial_concurrent = cfg['init']
+        processing_timeout = cfg.get('ptimeout', 30.0)
         _extra = 0.0
         log = None
+        gates = None
+        limiter = None
 
         def extra_cost(self):
             return self._extra
@@ -417,44 +432,140 @@ def make_rpc_class(env, cfg):
         def on_disconnect_due_to_excessive_session_cost(self):
             self.log.append(('hook', self.loop.time()))
 
-        gates = None
+        async def _handle(self, method, rid, cost):
+            self.log.append(('start', rid, self.loop.time(), self.limiter.max_concurrent))
+            try:
+                if method == 'hold':
+                    # scripted holder: waits for its gate, then fails with the given cost (or succeeds)
+                    cost = await self.gates[rid]
+                    if cost is not None:
+                        e = RPCError(7, 'no')
+                        e.cost = cost
+                        raise e
+                    return rid
+                if method == 'fail':
+                    e = RPCError(7, 'no')
+                    e.cost = cost
+                    raise e
+                if method == 'crash':
+                    raise ValueError('handler crashed')
+                return rid
+            finally:
+                self.log.append(('finish', rid, self.loop.time()))
 
         async def handle_request(self, request):
-            self.log.append(('start', request.args[0], self.loop.time(),
-                             self._incoming_concurrency.max_concurrent))
-            if request.method == 'hold':
-                # scripted holder: waits for its gate, then fails with the given cost (or succeeds)
-                cost = await self.gates[request.args[0]]
-                self.log.append(('finish', request.args[0], self.loop.time()))
-                if cost is not None:
-                    raise self.rpc_error(7, 'no', cost=cost)
-                return request.args[0]
-            if request.method == 'fail':
-                raise self.rpc_error(7, 'no', cost=request.args[1])
-            if request.method == 'crash':
-                raise ValueError('handler crashed')
-            return request.args[0]
+            a = request.args
+            return await self._handle(request.method, a[0], a[1] if len(a) > 1 else 0.0)
+
+        async def handle_message(self, message):
+            parts = message[1].decode().split(':')
+            return await self._handle(message[0].rstrip(b'\0').decode(), int(parts[0]),
+                                      float(parts[1]) if len(parts) > 1 else 0.0)
     return Srv
 
 
-def run_session_case(env, cfg, client, script):
-    """script: list of ('bump', d) / ('extra', e) / ('advance', dt) / ('eval',) / ('req', id) /
-    ('fail', id, extra_cost) / ('crash', id) and the same three as *notifications* ('nreq', 'nfail',
-    'ncrash': no id, so no reply).  Returns the oracle verdict (key, why) and statistics."""
-    env.new_loop()
-    cls = make_rpc_class(env, cfg)
-    RPCError = env.jsonrpc.RPCError
+class Live:
+    """a live server (or client) session of either class on the fake transport"""
 
-    def rpc_error(self, code, msg, cost):
-        e = RPCError(code, msg)
-        e.cost = cost
-        return e
-    cls.rpc_error = rpc_error
-    proto, tr, s = env.make_session(cls, 'client' if client else 'server')
-    s.log = []
-    env.idle()
+    def __init__(self, env, cfg, kind='rpc', client=False):
+        env.new_loop()
+        self.env, self.cfg, self.kind = env, cfg, kind
+        cls = make_session_class(env, cfg, kind)
+        self.proto, self.tr, self.s = env.make_session(cls, 'client' if client else 'server')
+        s = self.s
+        s.log, s.gates = [], {}
+        s.limiter = find_incoming_limiter(s)
+        self.lim = s.limiter
+        env.idle()
+
+    def wire(self, method, rid, *extra, notification=False):
+        if self.kind == 'msg':
+            payload = str(rid) if not extra else f'{rid}:{extra[0]}'
+            return self.env.framing.BitcoinFramer().frame((method.encode(), payload.encode()))
+        d = {'jsonrpc': '2.0', 'method': method, 'params': [rid] + list(extra)}
+        if not notification:
+            d['id'] = rid
+        return json.dumps(d).encode() + b'\n'
+
+    def feed(self, data):
+        self.proto.data_received(data)
+
+    def hold(self, rid):
+        self.s.gates[rid] = self.env.loop.create_future()
+        self.feed(self.wire('hold', rid))
+
+    def release(self, rid, cost=None):
+        g = self.s.gates.get(rid)
+        if g is not None and not g.done():
+            g.set_result(cost)
+
+    def starts(self, rid=None):
+        return [e for e in self.s.log if e[0] == 'start' and (rid is None or e[1] == rid)]
+
+    def hooks(self):
+        return [e for e in self.s.log if e[0] == 'hook']
+
+    def running(self):
+        fin = {e[1] for e in self.s.log if e[0] == 'finish'}
+        return [e[1] for e in self.s.log if e[0] == 'start' and e[1] not in fin]
+
+    def replies(self, since=0):
+        out = []
+        if self.kind == 'msg':
+            return out
+        for chunk in self.tr.out[since:]:
+            for line in chunk.split(b'\n'):
+                if line.strip():
+                    try:
+                        v = json.loads(line)
+                    except ValueError:
+                        continue
+                    out += v if isinstance(v, list) else [v]
+        return out
+
+    def sent_sizes(self, since=0):
+        """(bytes written, number of writes): the charge for a sent message may or may not include
+        the framing (one newline per JSON message), the text does not say"""
+        chunks = self.tr.out[since:]
+        return sum(len(c) for c in chunks), len(chunks)
+
+    def close(self):
+        for g in self.s.gates.values():
+            if not g.done():
+                g.cancel()
+        self.env.close_loop()
+
+
+MALFORMED = ('garbage', 'invalid', 'emptybatch', 'badbatch', 'badsum')
+
+
+def malformed_bytes(live, st):
+    k = st[0]
+    if k == 'garbage':
+        return b'\xff\xfe{{ not json ' + str(st[1]).encode() + b'\n'
+    if k == 'invalid':
+        return json.dumps({'jsonrpc': '2.0', 'method': 5, 'id': st[1]}).encode() + b'\n'
+    if k == 'emptybatch':
+        return b'[]\n'
+    if k == 'badbatch':
+        return json.dumps([7, 'x', None][:max(1, st[2] % 4)] * (1 + st[2] // 4)).encode() + b'\n'
+    if k == 'badsum':
+        frame = bytearray(live.wire('req', st[1]))
+        frame[-1] ^= 0xFF
+        return bytes(frame)
+    raise AssertionError(k)
+
+
+def run_session_case(env, cfg, client, script, kind='rpc'):
+    """script: list of ('bump', d) / ('extra', e) / ('advance', dt) / ('eval',) / ('req', id) /
+    ('fail', id, own_cost) / ('crash', id), the same three as *notifications* ('nreq', 'nfail',
+    'ncrash': no id, so no reply; on a MessageSession everything is a notification), and malformed
+    input ('garbage', id) / ('invalid', id) / ('emptybatch', id) / ('badbatch', id, n) on an RPC
+    session, ('badsum', id) on a message session.  Returns the oracle verdict (key, why), stats."""
+    live = Live(env, cfg, kind, client)
+    s, tr = live.s, live.tr
     key = why = None
-    stats = dict(refused=0, delayed=0, prompt=0)
+    stats = dict(refused=0, delayed=0, prompt=0, malformed=0)
 
     def fail(k, w):
         nonlocal key, why
@@ -487,27 +598,45 @@ def run_session_case(env, cfg, client, script):
                 fail('c14:accounting-raised', f'recalc_concurrency() raised {type(e).__name__}: {e}')
                 break
             ev_last = s.cost + s._extra
+        elif st[0] in MALFORMED:
+            if (st[0] == 'badsum') != (kind == 'msg'):
+                continue
+            data = malformed_bytes(live, st)
+            nout = len(tr.out)
+            cost_before, errors_before, t0 = s.cost, s.errors, env.loop.time()
+            live.feed(data)
+            env.advance(1.0)
+            sent, nwrites = live.sent_sizes(nout)
+            # a protocol violation costs the base error cost plus any error-specific cost (not
+            # fixed by the text, never negative) on top of the traffic, and counts as an error;
+            # if that re-evaluated, the decay covers at most the time since the last evaluation
+            least = cost_before + (len(data) + sent - nwrites) * cfg['bw'] + cfg['base']
+            slack = 1e-6 * max(1.0, least) + cfg['decay'] * (env.loop.time() + 1e4)
+            if s.errors - errors_before < 1:
+                fail('c14:error-count', f'{st[0]} input: session.errors went {errors_before} -> {s.errors}')
+            if cfg['decay'] == 0 and s.cost < least - slack:
+                fail('c14:error-charge', f'{st[0]} input ({len(data)} bytes in, {sent} out): cost {cost_before} -> '
+                                         f'{s.cost}, expected at least {least} (traffic + base error cost {cfg["base"]})')
+            if s.cost < 0:
+                fail('c14:negative-cost', f'cost {s.cost}')
+            stats['malformed'] += 1
+            if s.is_closing():
+                closed = True
+            ev_last = None
         elif st[0] in ('req', 'fail', 'crash', 'nreq', 'nfail', 'ncrash'):
             rid = st[1]
-            is_notification = st[0][0] == 'n'
-            method = st[0][1:] if is_notification else st[0]
-            d = {'jsonrpc': '2.0', 'method': method, 'params': [rid] + list(st[2:])}
-            if not is_notification:
-                d['id'] = rid
-            data = json.dumps(d).encode() + b'\n'
+            is_notification = st[0][0] == 'n' or kind == 'msg'
+            method = st[0][1:] if st[0][0] == 'n' else st[0]
+            data = live.wire(method, rid, *st[2:], notification=is_notification)
             t0 = env.loop.time()
             nout = len(tr.out)
             cost_before = s.cost
             errors_before = s.errors
-            proto.data_received(data)
+            live.feed(data)
             env.advance(cfg['sleep'] * 4 + 1)
-            started = [e for e in s.log if e[0] == 'start' and e[1] == rid]
-            hooks = [e for e in s.log if e[0] == 'hook']
-            replies = []
-            for chunk in tr.out[nout:]:
-                for line in chunk.split(b'\n'):
-                    if line:
-                        replies.append(json.loads(line))
+            started = live.starts(rid)
+            hooks = live.hooks()
+            replies = live.replies(nout)
             code = replies[0].get('error', {}).get('code') if replies else None
             if s.cost < 0:
                 fail('c14:negative-cost', f'cost {s.cost}')
@@ -555,50 +684,48 @@ def run_session_case(env, cfg, client, script):
                         fail('c14:delay-above-max', f'delay {got} > cost_sleep {cfg["sleep"]}')
                     stats['delayed'] += 1
             if started and not closed:
-                # bytes of the message and of its reply are charged at the per-byte rate; a failed
+                # bytes of the message and of its reply are charged at the per-byte rate (with or
+                # without the framing byte of a sent message: the text does not say); a failed
                 # request OR notification costs base + its own cost on top and counts as an error;
                 # if that re-evaluates, the decay covers the time since the evaluation.
-                # _send_message charges the unframed message: without the framer's newline
                 failing = method in ('fail', 'crash')
                 own = st[2] if method == 'fail' else 0.0
-                sent = sum(len(c) - c.count(b'\n') for c in tr.out[nout:])
+                sent, nwrites = live.sent_sizes(nout)
                 if is_notification and sent:
                     fail('c14:reply-to-notification', f'notification {rid} was answered')
-                want = cost_before + (len(data) + sent) * cfg['bw'] + ((cfg['base'] + own) if failing else 0.0)
-                alt = max(0.0, want - (started[0][2] - t0) * cfg['decay'])
+                wants = []
+                for out_bytes in (sent - nwrites, sent):
+                    w = cost_before + (len(data) + out_bytes) * cfg['bw'] + ((cfg['base'] + own) if failing else 0.0)
+                    wants += [w, max(0.0, w - (started[0][2] - t0) * cfg['decay'])]
                 what = ('failed ' if failing else '') + ('notification' if is_notification else 'request')
-                if not any(abs(s.cost - w) <= 1e-6 * max(1.0, w) for w in (want, alt)):
+                if not any(abs(s.cost - w) <= 1e-6 * max(1.0, w) for w in wants):
                     fail('c14:error-charge' if failing else 'c14:traffic-charge',
-                         f'{what} {rid}: cost {cost_before} -> {s.cost}, expected {want} '
-                         f'(or {alt} if re-evaluated): {len(data)} bytes in, {sent} out'
+                         f'{what} {rid}: cost {cost_before} -> {s.cost}, expected {wants[0]} '
+                         f'(or {wants[1]} if re-evaluated): {len(data)} bytes in, {sent - nwrites} out'
                          + (f', error base {cfg["base"]} + own cost {own}' if failing else ''))
                 if s.errors - errors_before != (1 if failing else 0):
                     fail('c14:error-count', f'{what} {rid}: session.errors went {errors_before} -> {s.errors}')
                 stats['failing_notifications'] = stats.get('failing_notifications', 0) + (failing and is_notification)
             ev_last = None
-    env.close_loop()
+    live.close()
     return key, why, stats
 
 
 def run_queue_case(env, case):
-    """Requests already queued for a concurrency slot when the cost crosses the hard limit: the
-    limiter is saturated by gate-controlled handlers, more requests wait, then one holder ends with
-    an expensive error (so the session re-evaluates its cost past the hard limit at that moment).
-    Property: once the evaluated cost has reached the hard limit no further request is executed; a
-    request admitted from then on is refused with -101, the hook runs, the session closes."""
+    """The C13 x C14 composition: the limiter is saturated by gate-controlled handlers, more
+    requests are queued, then the cost crosses the hard limit by `route`:
+      'holder'  - one holder ends with an expensive error (re-evaluation at that moment),
+      'bump'    - bump_cost (+ explicit evaluation),
+      'garbage' - garbage lines (parse errors) / bad checksums until the limit is 0,
+      'traffic' - a big chunk of bytes received;
+    then the holders finish (oldest first).  Property: once the evaluated cost has reached the hard
+    limit no further request is executed; one admitted from then on is refused with -101, the hook
+    runs, the session is closed ("finally disconnects") - so every queued request must be refused
+    rather than left waiting for its processing timeout."""
     cfg = case['cfg']
-    env.new_loop()
-    cls = make_rpc_class(env, cfg)
-    RPCError = env.jsonrpc.RPCError
-
-    def rpc_error(self, code, msg, cost):
-        e = RPCError(code, msg)
-        e.cost = cost
-        return e
-    cls.rpc_error = rpc_error
-    proto, tr, s = env.make_session(cls, 'server')
-    s.log = []
-    s.gates = {}
+    kind = case.get('kind', 'rpc')
+    live = Live(env, cfg, kind)
+    s, tr = live.s, live.tr
     key = why = None
 
     def fail(k, w):
@@ -606,70 +733,108 @@ def run_queue_case(env, case):
         if why is None:
             key, why = k, w
 
-    def feed(rid, method):
-        d = {'jsonrpc': '2.0', 'method': method, 'params': [rid], 'id': rid}
-        proto.data_received(json.dumps(d).encode() + b'\n')
-
-    n, w = cfg['init'], case['waiters']
+    n, w, route = cfg['init'], case['waiters'], case.get('route', 'holder')
     for i in range(n):
-        s.gates[i] = env.loop.create_future()
-        feed(i, 'hold')
+        live.hold(i)
     env.idle()
     for j in range(n, n + w):
-        feed(j, 'req')
+        live.feed(live.wire('req', j))
     env.idle()
-    started = {e[1] for e in s.log if e[0] == 'start'}
+    started = {e[1] for e in live.starts()}
+    stats = dict(refused=0, skipped=0)
     if started != set(range(n)):
-        fail('c14:queue-setup', f'expected exactly the {n} holders to run, got {sorted(started)}')
+        # not the situation this scenario is about (judged by the other scenarios)
+        stats['skipped'] = 1
+        live.close()
+        return key, why, stats
     nout = len(tr.out)
-    s.gates[case['which']].set_result(case['cost'])
-    env.advance(cfg['sleep'] * 4 + 1)
-    limit = s._incoming_concurrency.max_concurrent
+    # the same history for the composed model (drv_c14 Q): arrivals, the crossing, the completions.
+    # (Not for route 'holder': there the permit is released before the failure is charged, an
+    # interleaving below the granularity of the composed big-step model.)
+    mops = [f'A{i}' for i in range(n + w)]
+    if route == 'holder':
+        mops = None
+        live.release(case['which'], case['cost'])
+    elif route == 'bump':
+        s.bump_cost(case['cost'])
+        s.recalc_concurrency()
+        mops += [f'b{fr(case["cost"])}', 'r']
+    elif route == 'garbage':
+        guard = 0
+        before = s.cost
+        while live.lim.max_concurrent > 0 and guard < 200 and not s.is_closing():
+            live.feed(malformed_bytes(live, ('badsum' if kind == 'msg' else 'garbage', 900 + guard)))
+            env.idle()
+            guard += 1
+        s.recalc_concurrency()
+        # what the garbage cost is an observation (base + an error-specific cost): one bump
+        mops += [f'b{fr(s.cost - before)}', 'r']
+    elif route == 'traffic':
+        nbytes = int(case['cost'] / max(cfg['bw'], 1e-9)) + 1
+        s.data_received(_Sized(nbytes))
+        s.recalc_concurrency()
+        mops += [f'd{nbytes}', 'r']
+    env.idle()
+    limit = live.lim.max_concurrent
     ev = s.cost + s._extra
-    stats = dict(refused=0)
+    if ev >= cfg['hard'] + 1e-6 * max(1.0, ev) and limit != 0:
+        fail('c14:past-hard', f'evaluated cost {ev} >= hard {cfg["hard"]} (pushed there via {route}) but the '
+                              f'permitted concurrency is {limit}, not 0')
     if limit == 0 and ev >= cfg['hard'] - 1e-6:
-        # the evaluated cost reached the hard limit when the holder failed
-        late = [e for e in s.log if e[0] == 'start' and e[1] >= n]
+        # the evaluated cost has reached the hard limit: let the handlers finish, oldest first
+        for i in range(n):
+            live.release(i, None)
+            env.idle()
+        if mops is not None:
+            mops += [f'F{i}' for i in range(n)]
+        env.advance(cfg['sleep'] * 4 + 1)
+        stats['model'] = (mops, len(live.hooks()), bool(s.is_closing()),
+                          sorted(e[1] for e in live.starts() if e[1] >= n))
+        late = [e for e in live.starts() if e[1] >= n]
         for e in late:
             if e[3] <= 0:
                 fail('c14:executed-past-hard',
                      f'request {e[1]} was queued for a slot; it was executed at t={e[2]} although the '
                      f'evaluated cost ({ev}) had reached the hard limit {cfg["hard"]} (limit 0)')
-        replies = {}
-        for chunk in tr.out[nout:]:
-            for line in chunk.split(b'\n'):
-                if line:
-                    v = json.loads(line)
-                    replies[v.get('id')] = v
+        replies = {v.get('id'): v for v in live.replies(nout)}
         first = n
         code = replies.get(first, {}).get('error', {}).get('code')
         if not late:
-            if code != -101:
-                fail('c14:no-101-past-hard', f'queued request {first} got its slot after the hard limit '
-                                             f'was reached: reply {replies.get(first)}, expected -101')
-            if not any(e[0] == 'hook' for e in s.log):
-                fail('c14:hook-not-called', f'queued request {first}: disconnect hook not called')
-            if not s.is_closing():
-                fail('c14:not-closed-past-hard', f'queued request {first}: session not closing after refusal')
-            stats['refused'] = 1
+            what = (f'{w} request(s) were queued behind {n} running handler(s) when the evaluated cost '
+                    f'({ev}) reached the hard limit {cfg["hard"]} via {route}; the handlers have finished')
+            if not live.hooks():
+                fail('c14:not-disconnected-past-hard',
+                     f'{what}: the disconnect hook never ran, closing={s.is_closing()}, replies '
+                     f'{sorted(k for k in replies if k is not None and k >= n)} - the queued requests are '
+                     f'left waiting for their processing timeout instead of being refused')
+            elif kind == 'rpc' and code != -101:
+                fail('c14:no-101-past-hard', f'{what}: reply to request {first} is {replies.get(first)}, expected -101')
+            if live.hooks() and not s.is_closing():
+                fail('c14:not-closed-past-hard', f'{what}: session not closing after the refusal')
+            # nobody may be left to time out: run past the processing timeout
+            env.advance(cfg.get('ptimeout', 30.0) + 1)
+            busy = [v for v in live.replies(nout) if v.get('error', {}).get('code') == -102]
+            if busy:
+                fail('c14:queued-request-timed-out-past-hard',
+                     f'{what}: request(s) {[v.get("id") for v in busy]} got -102 (timed out waiting for a slot)')
+            stats['refused'] = 1 if live.hooks() else 0
     else:
-        fail('c14:queue-setup', f'the expensive failure did not bring the limit to 0 (limit {limit}, evaluated {ev})')
-    for g in s.gates.values():
-        if not g.done():
-            g.cancel()
-    env.close_loop()
+        stats['skipped'] = 1      # the route did not push the cost past the hard limit
+    live.close()
     return key, why, stats
 
 
 def queue_cases(rng, count):
     out = []
+    routes = ['holder', 'bump', 'garbage', 'traffic']
     for k in range(count):
         soft = dy(rng, 0, 500)
         hard = soft + dy(rng, 50, 2000)
         cfg = dict(bw=1 / 65536, soft=soft, hard=hard, decay=rng.choice([0.0, 0.25]), sleep=rng.choice([2.0, 0.5]),
-                   base=dy(rng, 0, 200), init=1 + k % 3)
+                   base=dy(rng, 1, 200), init=1 + k % 3)
         out.append(dict(cfg=cfg, waiters=1 + (k // 3) % 2, which=rng.randrange(cfg['init']),
-                        cost=hard + 101 + dy(rng, 0, 500)))
+                        cost=hard + 101 + dy(rng, 0, 500), route=routes[k % 4],
+                        kind='msg' if (k // 4) % 3 == 2 else 'rpc'))
     return out
 
 
@@ -677,16 +842,208 @@ def _queue_batch(cases):
     return [run_queue_case(_env, c) for c in cases]
 
 
+def compare_queue_model(ctx, res, cases, results, threshold):
+    """the queue scenarios against the composed model C14.Sess (accounting + C13 limiter)"""
+    lines, idx = [], []
+    for k, (case, (_key, _why, stats)) in enumerate(zip(cases, results)):
+        m = stats.get('model')
+        if m and m[0]:
+            lines.append('Q ' + cfg_line(case['cfg'], False, threshold, 0.0)[2:] + ' | ' + ' '.join(m[0]))
+            idx.append(k)
+    out = ctx.model(lines) if lines else []
+    if out is None:
+        return
+    for k, mline in zip(idx, out):
+        case, (_key, _why, stats) = cases[k], results[k]
+        _mops, hooks, closing, late = stats['model']
+        last = mline.split(' | ')[-1]
+        fields = dict(f.split('=') for f in last.split(';')[1:])
+        m_entered = sorted(int(e[1:]) for rec in mline.split(' | ') for e in rec.split(';')[0].split(',')
+                           if e.startswith('E') and int(e[1:]) >= case['cfg']['init'])
+        m_closed, m_hooks = fields['closed'] == '1', int(fields['hooks'])
+        got = (closing, hooks >= 1, late)
+        mod = (m_closed, m_hooks >= 1, m_entered)
+        if got != mod or hooks > m_hooks:
+            res.disagreement(dict(case, level='queue'),
+                             f'closing={closing} hooks={hooks} queued requests executed={late}',
+                             f'closed={m_closed} hooks={m_hooks} executed={m_entered}', ops=' '.join(_mops))
+        res.count('queue_cases_compared_with_composed_model')
+
+
 def evaluate_queue(ctx, res, cases):
     results = _pmap(ctx, _queue_batch, cases, chunk=50)
+    if ctx.have_model:
+        compare_queue_model(ctx, res, cases, results, ctx.facts.get('drift_threshold', 100))
     for case, (key, why, stats) in zip(cases, results):
         c = dict(case, level='queue')
         if why:
             res.violation(key, c, why)
         res['evaluations'] += 1
         res.count('queue_cases')
+        res.count('queue_cases_route_' + case.get('route', 'holder'))
+        res.count('queue_cases_message_session', case.get('kind') == 'msg')
         res.count('queued_requests_refused_101', stats['refused'])
+        res.count('queue_cases_skipped', stats.get('skipped', 0))
         if stats['refused']:
+            res.nontrivial(json.dumps(c, sort_keys=True))
+
+
+def run_admit_delay_case(env, case):
+    """Delay is decided when the request is admitted.  One slot: request A holds it; request B
+    arrives while the evaluated cost is at fraction f0 of the soft range and queues; the cost is
+    re-evaluated to fraction f1; A finishes at t1, B gets the slot.  "Each request is delayed
+    proportionally" to where the evaluated cost lies: B's handler must start f1*cost_sleep after
+    t1 (not f0*cost_sleep: f0 is no longer the evaluated cost)."""
+    cfg = case['cfg']
+    live = Live(env, cfg, case.get('kind', 'rpc'))
+    s = live.s
+    key = why = None
+
+    def fail(k, w):
+        nonlocal key, why
+        if why is None:
+            key, why = k, w
+
+    soft, hard = cfg['soft'], cfg['hard']
+
+    def set_fraction(f):
+        s.bump_cost(soft + f * (hard - soft) - s.cost)
+        s.recalc_concurrency()
+    set_fraction(0.0)
+    live.hold(0)
+    env.advance(cfg['sleep'] + 1)
+    if not live.starts(0):
+        live.close()
+        return key, why, dict(delay=0.0, skipped=1)
+    set_fraction(case['f0'])
+    live.feed(live.wire('req', 1))
+    env.advance(case['wait'])
+    if live.starts(1):
+        fail('c14:concurrency-above-permitted', 'a second request was executed although the only slot '
+                                                '(initial_concurrent 1) is taken')
+    set_fraction(case['f1'])
+    t1 = env.loop.time()
+    live.release(0, None)
+    env.advance(cfg['sleep'] * 2 + 1)
+    st = live.starts(1)
+    want = case['f1'] * cfg['sleep']
+    if live.lim.max_concurrent >= 1 and case['f1'] < 1:
+        if not st:
+            fail('c14:not-started-between', f'queued request never started (fraction {case["f1"]})')
+        else:
+            got = st[0][2] - t1
+            if abs(got - want) > 1e-6 * max(1.0, want) + 1e-9:
+                fail('c14:delay-not-proportional',
+                     f'a request queued while the evaluated cost was at fraction {case["f0"]} of the soft range '
+                     f'got its slot at t={t1} when the evaluated cost was at fraction {case["f1"]}: its handler '
+                     f'started after {got}s, expected {case["f1"]} x cost_sleep {cfg["sleep"]} = {want}s')
+    live.close()
+    return key, why, dict(delay=want)
+
+
+def admit_delay_cases(rng, count):
+    out = []
+    fr = [0.0, 0.125, 0.25, 0.5, 0.75, 0.875]
+    for k in range(count):
+        cfg = dict(bw=0.0, soft=256.0, hard=768.0, decay=0.0, sleep=rng.choice([2.0, 0.5]), base=0.0, init=1,
+                   ptimeout=1000.0)
+        f0, f1 = rng.choice(fr), rng.choice(fr)
+        out.append(dict(cfg=cfg, f0=f0, f1=f1, wait=rng.choice([0.0, 0.25, 3.0]), kind='msg' if k % 4 == 3 else 'rpc'))
+    return out
+
+
+def run_overrun_case(env, case):
+    """The permitted concurrency is what max_concurrent says (lazily: one excess slot is retired
+    per completed handler, a raise takes effect at the next admission): the number of handlers
+    running at once may never exceed it.  Bursts larger than the limit with handlers slower than
+    processing_timeout (queued requests time out while waiting for a slot), then further bursts -
+    below the soft limit and after the cost was moved into the soft range."""
+    cfg = case['cfg']
+    live = Live(env, cfg, case.get('kind', 'rpc'))
+    s = live.s
+    key = why = None
+    L = cfg['init']
+    cap = L
+    stats = dict(timed_out=0, peak=0)
+
+    def fail(k, w):
+        nonlocal key, why
+        if why is None:
+            key, why = k, w
+
+    def check(what):
+        nonlocal cap
+        limit = live.lim.max_concurrent
+        running = len(live.running())
+        stats['peak'] = max(stats['peak'], running)
+        if running > max(cap, limit):
+            fail('c14:concurrency-above-permitted',
+                 f'{what}: {running} handlers run at once although the permitted concurrency is {limit} '
+                 f'(initial {L}; {cap} slots were in use before)')
+
+    rid = 0
+    for burst, (k, hold_for) in enumerate(case['bursts']):
+        ids = list(range(rid, rid + k))
+        rid += k
+        for i in ids:
+            live.hold(i)
+        env.idle()
+        check(f'burst {burst} of {k} requests')
+        # the handlers outlive the processing timeout of the requests queued behind them
+        env.advance(hold_for)
+        check(f'burst {burst} after {hold_for}s')
+        for i in ids:
+            if i in live.running():
+                if cap > live.lim.max_concurrent:
+                    cap -= 1
+                live.release(i, None)
+                env.idle()
+                cap = max(cap, min(len(live.running()), live.lim.max_concurrent))
+                check(f'burst {burst}, handler {i} finished')
+        env.advance(1.0)
+        if burst == case.get('throttle_after'):
+            soft, hard = cfg['soft'], cfg['hard']
+            s.bump_cost(soft + case['fraction'] * (hard - soft) - s.cost)
+            s.recalc_concurrency()
+    stats['timed_out'] = sum(1 for v in live.replies() if v.get('error', {}).get('code') == -102)
+    live.close()
+    return key, why, stats
+
+
+def overrun_cases(rng, count):
+    out = []
+    for k in range(count):
+        L = [1, 2, 3, 5][k % 4]
+        cfg = dict(bw=0.0, soft=256.0, hard=768.0, decay=0.0, sleep=0.5, base=0.0, init=L, ptimeout=rng.choice([0.5, 2.0]))
+        bursts = [(L + rng.randint(1, 4), cfg['ptimeout'] + rng.choice([0.25, 1.0])),
+                  (L + rng.randint(0, 4), rng.choice([0.0, cfg['ptimeout'] + 0.5])),
+                  (L + rng.randint(0, 3), 0.0)]
+        out.append(dict(cfg=cfg, bursts=bursts, throttle_after=rng.choice([None, 0, 1]),
+                        fraction=rng.choice([0.25, 0.5, 0.75]), kind='msg' if k % 5 == 4 else 'rpc'))
+    return out
+
+
+def _scn_batch(cases):
+    out = []
+    for kind, case in cases:
+        fn = {'admit-delay': run_admit_delay_case, 'overrun': run_overrun_case}[kind]
+        out.append(fn(_env, case))
+    return out
+
+
+def evaluate_scenarios(ctx, res, kind, cases):
+    results = _pmap(ctx, _scn_batch, [(kind, c) for c in cases], chunk=50)
+    for case, (key, why, stats) in zip(cases, results):
+        c = dict(case, level=kind)
+        if why:
+            res.violation(key, c, why)
+        res['evaluations'] += 1
+        res.count(kind.replace('-', '_') + '_cases')
+        if kind == 'overrun':
+            res.count('overrun_requests_timed_out_in_queue', stats['timed_out'])
+            if stats['timed_out']:
+                res.nontrivial(json.dumps(c, sort_keys=True))
+        else:
             res.nontrivial(json.dumps(c, sort_keys=True))
 
 
@@ -701,6 +1058,7 @@ def random_session_script(rng):
     else:
         cfg['hard'] = cfg['soft'] + dy(rng, 50, 3000)
     client = rng.random() < 0.2
+    kind = 'msg' if rng.random() < 0.3 else 'rpc'
     script = []
     rid = 0
     for _ in range(rng.randint(2, 9)):
@@ -718,6 +1076,10 @@ def random_session_script(rng):
             # drive the cost up with an expensive failing notification instead of bump_cost
             d = script.pop()[1]
             script += [('eval',), ('nfail', rid, d)]
+            rid += 1
+        if rng.random() < 0.25:
+            # malformed input: charged as an error, never executed
+            script.append((rng.choice(['garbage', 'invalid', 'emptybatch', 'badbatch', 'badsum']), rid, rng.randint(1, 11)))
             rid += 1
         if rng.random() < 0.3:
             script.append(('extra', dy(rng, -200, 600)))
@@ -738,24 +1100,26 @@ def random_session_script(rng):
         else:
             script.append(('req', rid))
         rid += 1
-    return cfg, client, script
+    return cfg, client, script, kind
 
 
 def _sess_batch(cases):
-    return [run_session_case(_env, cfg, client, script) for cfg, client, script in cases]
+    return [run_session_case(_env, cfg, client, script, kind) for cfg, client, script, kind in cases]
 
 
 def evaluate_session(ctx, res, cases):
     results = _pmap(ctx, _sess_batch, cases, chunk=100)
-    for (cfg, client, script), (key, why, stats) in zip(cases, results):
-        case = {'level': 'session', 'cfg': cfg, 'client': client, 'script': [list(s) for s in script]}
+    for (cfg, client, script, kind), (key, why, stats) in zip(cases, results):
+        case = {'level': 'session', 'cfg': cfg, 'client': client, 'script': [list(s) for s in script], 'kind': kind}
         if why:
             res.violation(key, case, why)
         res['evaluations'] += 1
         res.count('session_cases')
+        res.count('session_cases_message_session', kind == 'msg')
         res.count('session_requests_refused_101', stats['refused'])
         res.count('session_requests_delayed', stats['delayed'])
         res.count('session_requests_prompt', stats['prompt'])
+        res.count('session_malformed_inputs', stats['malformed'])
         res.count('session_failing_notifications', stats.get('failing_notifications', 0))
         if stats['refused'] or stats['delayed']:
             res.nontrivial(json.dumps(case, sort_keys=True))
@@ -766,8 +1130,14 @@ def corpus_cases(verif):
     out = []
     for line in corpus_lines(verif, 'C14'):
         d = json.loads(line)
-        out.append((d['cfg'], d.get('client', False), [tuple(o) for o in d['ops']]))
+        if 'level' not in d:
+            out.append((d['cfg'], d.get('client', False), [tuple(o) for o in d['ops']]))
     return out
+
+
+def corpus_queue_cases(verif):
+    return [{k: v for k, v in d.items() if k != 'level'}
+            for d in map(json.loads, corpus_lines(verif, 'C14')) if d.get('level') == 'queue']
 
 
 RULE = ('accounting level: case = (configuration, client?, history of data_received / sent / '
@@ -789,12 +1159,18 @@ def run(ctx):
     cc = corpus_cases(ctx.verif)
     if cc:
         evaluate_acct(ctx, res, cc, 'corpus', thr)
-    res['scopes']['corpus'] = len(cc)
+    cq = corpus_queue_cases(ctx.verif)
+    if cq:
+        evaluate_queue(ctx, res, cq)
+    res['scopes']['corpus'] = len(cc) + len(cq)
     # cheap targeted scenarios and quick-size scopes first; the larger volumes are only added
     # while nothing has failed (so a failing tree is reported fast)
     full = ctx.tier == 'thorough'
     nq = 24
     evaluate_queue(ctx, res, queue_cases(rng, nq))
+    nad, nov = 24, 16
+    evaluate_scenarios(ctx, res, 'admit-delay', admit_delay_cases(rng, nad))
+    evaluate_scenarios(ctx, res, 'overrun', overrun_cases(rng, nov))
     nsess = 400
     evaluate_session(ctx, res, [random_session_script(rng) for _ in range(nsess)])
     depth = 4
@@ -813,6 +1189,10 @@ def run(ctx):
         nsess += more
         evaluate_queue(ctx, res, queue_cases(rng, 36))
         nq += 36
+        evaluate_scenarios(ctx, res, 'admit-delay', admit_delay_cases(rng, 200 if full else 48))
+        evaluate_scenarios(ctx, res, 'overrun', overrun_cases(rng, 200 if full else 32))
+        nad += 200 if full else 48
+        nov += 200 if full else 32
     if full and not res.failed:
         depth = 5
         ex5 = [c for c in exhaustive_grid(5) if len(c[2]) == 5]
@@ -821,6 +1201,8 @@ def run(ctx):
     res['scopes']['exhaustive'] = {'alphabet': 11, 'max_len': depth, 'histories': len(ex)}
     res['scopes']['session'] = nsess
     res['scopes']['queued_when_hard_limit_reached'] = nq
+    res['scopes']['delay_decided_at_admission'] = nad
+    res['scopes']['bursts_with_queue_timeouts'] = nov
     for cfg, client, ops in cases[:2]:
         res.sample({'cfg': cfg, 'client': client, 'ops': ' '.join(op_text(o) for o in ops)[:300]})
     return res.finish(RULE, exhaustive=not res.failed)
@@ -834,8 +1216,14 @@ def replay(ctx, case):
     thr = ctx.facts.get('drift_threshold', 100)
     if case.get('level') == 'queue':
         evaluate_queue(ctx, res, [{k: v for k, v in case.items() if k != 'level'}])
+    elif case.get('level') in ('admit-delay', 'overrun'):
+        c = {k: v for k, v in case.items() if k != 'level'}
+        if 'bursts' in c:
+            c['bursts'] = [tuple(b) for b in c['bursts']]
+        evaluate_scenarios(ctx, res, case['level'], [c])
     elif case.get('level') == 'session':
-        evaluate_session(ctx, res, [(case['cfg'], case['client'], [tuple(s) for s in case['script']])])
+        evaluate_session(ctx, res, [(case['cfg'], case['client'], [tuple(s) for s in case['script']],
+                                     case.get('kind', 'rpc'))])
     else:
         evaluate_acct(ctx, res, [(case['cfg'], case.get('client', False),
                                   [tuple(o) for o in case['ops']])], 'replay', thr)
